@@ -7,7 +7,7 @@
    run loop.  Go's channel (capacity 1 = one-slot option) and sync.Mutex (atomic sections)
    semantics are assumed by the model. *)
 From Eino Require Import Base.Util Model.TaskMgr Model.Confluence Model.EagerSkip Model.RunHandoff.
-From Eino Require Import Proofs.TaskMgr Proofs.TaskMgrProgress Proofs.TaskMgrTrace Proofs.Confluence Proofs.Eager Proofs.HandoffOrder Proofs.TaskMgrComplete Proofs.TaskMgrOrders Proofs.RunHandoff Proofs.RunHandoffOrder Proofs.RunHandoffLive Proofs.RunHandoffLiveBatch Proofs.RunHandoffSched Proofs.RunHandoffReturn Proofs.EagerSkip.
+From Eino Require Import Proofs.TaskMgr Proofs.TaskMgrProgress Proofs.TaskMgrTrace Proofs.Confluence Proofs.Eager Proofs.HandoffOrder Proofs.TaskMgrComplete Proofs.TaskMgrOrders Proofs.RunHandoff Proofs.RunHandoffOrder Proofs.RunHandoffLive Proofs.RunHandoffLiveBatch Proofs.RunHandoffSched Proofs.RunHandoffReturn Proofs.EagerSkip Proofs.PreFail Proofs.BatchDagOnce.
 From Coq Require Import Permutation.
 
 (* ---- every finished task is in exactly one of l / done / the collector's hands / collected;
@@ -140,6 +140,17 @@ Theorem eager_confluent : forall g pick1 pick2 f1 f2,
 Proof. exact eager_confluent. Qed.
 Print Assumptions eager_confluent.
 
+(* without any hypothesis on where the failing nodes are: two schedules agree on the outcome, or one of
+   them fails - never two different values (what F-C03c leaves open is exactly "the value under one
+   schedule, the failure of a node that does not feed END under another") *)
+Theorem eager_outcome_dichotomy : forall g pick1 pick2 f1 f2,
+  NoDup (map n_id g) -> ~ In START (map n_id g) ->
+  (List.length g < f1)%nat -> (List.length g < f2)%nat ->
+  fst (fst (eager pick1 g f1)) = fst (fst (eager pick2 g f2)) \/
+  fst (fst (eager pick1 g f1)) = OFail \/ fst (fst (eager pick2 g f2)) = OFail.
+Proof. exact eager_outcome_dichotomy. Qed.
+Print Assumptions eager_outcome_dichotomy.
+
 Theorem eager_fuel_enough : forall g pick f,
   NoDup (map n_id g) -> ~ In START (map n_id g) -> (List.length g < f)%nat ->
   fst (fst (eager pick g f)) <> OFuel.
@@ -147,9 +158,13 @@ Proof. exact eager_fuel_enough. Qed.
 Print Assumptions eager_fuel_enough.
 
 (* the schedule the correspondence check evaluates for a value ([pick_ok]: the oldest running task
-   that does not fail) delivers the value whenever some schedule does *)
+   that does not fail) delivers the value whenever some schedule does.  Hypothesis [prefail_feed_end]:
+   every node whose state pre-handler fails feeds END (such a node fails the run the moment it
+   becomes ready, whatever the schedule does afterwards; when it does not feed END the outcome is
+   schedule dependent - the F-C03c shape, [eager_prefail_schedule_dependent] below - and the
+   correspondence then compares the value runs with each other and through their recorded schedules) *)
 Theorem eager_ok_complete : forall g pick f fuel v l r,
-  NoDup (map n_id g) -> ~ In START (map n_id g) ->
+  NoDup (map n_id g) -> ~ In START (map n_id g) -> prefail_feed_end g ->
   eager pick g f = (ODone v, l, r) -> (List.length g < fuel)%nat ->
   exists l' r', eager pick_ok g fuel = (ODone v, l', r') /\ Permutation (feeding g l) (feeding g l').
 Proof. exact eager_ok_complete. Qed.
@@ -360,6 +375,15 @@ Theorem run_eager_confluent : forall g F1 F2 s1 r1 s2 r2 o1 o2,
 Proof. exact combined_eager_confluent. Qed.
 Print Assumptions run_eager_confluent.
 
+(* ... and for every graph: two paths that return, return the same outcome or one of them a failure *)
+Theorem run_eager_outcome_dichotomy : forall g F1 F2 s1 r1 s2 r2 o1 o2,
+  NoDup (map n_id g) -> ~ In START (map n_id g) ->
+  creach false Dag g F1 (s1, r1) -> creach false Dag g F2 (s2, r2) ->
+  r_res r1 = Some o1 -> r_res r2 = Some o2 ->
+  o1 = o2 \/ o1 = OFail \/ o2 = OFail.
+Proof. exact combined_eager_dichotomy. Qed.
+Print Assumptions run_eager_outcome_dichotomy.
+
 (* a value is never returned while a task that feeds END is still in flight *)
 Theorem run_eager_ancestors_finished : forall g F s r v,
   NoDup (map n_id g) -> ~ In START (map n_id g) ->
@@ -411,6 +435,35 @@ Theorem run_batch_never_stuck : forall m g F s r,
   creach true m g F (s, r) -> r_res r = None -> exists y, cstep true m g (s, r) y.
 Proof. intros m g F s r Hnd Hf. exact (cstep_enabled_b m g F Hnd Hf s r). Qed.
 Print Assumptions run_batch_never_stuck.
+
+(* all-predecessor (dag) channels: the hypothesis holds for EVERY graph and every step limit - a node
+   becomes ready again only after all its predecessors have run again, so the canonical run executes no
+   node twice (a node on a cycle is never ready) - and the whole-run no-hang theorems need nothing but
+   well-formed node keys *)
+Theorem batch_dag_no_node_twice : forall g F,
+  NoDup (map n_id g) -> ~ In START (map n_id g) ->
+  NoDup (map fst (snd (batch (fun l => l) Dag g F))).
+Proof. intros g F Hnd Hs. exact (batch_dag_nodup g Hnd Hs F). Qed.
+Print Assumptions batch_dag_no_node_twice.
+
+Theorem run_batch_no_hang_dag : forall g F x,
+  NoDup (map n_id g) -> ~ In START (map n_id g) ->
+  creach true Dag g F x -> CAFb Dag g (fun y => r_res (snd y) <> None) x.
+Proof. intros g F x Hnd Hs. exact (batch_no_hang Dag g F Hnd (batch_dag_nodup g Hnd Hs F) x). Qed.
+Print Assumptions run_batch_no_hang_dag.
+
+Theorem run_batch_never_stuck_dag : forall g F s r,
+  NoDup (map n_id g) -> ~ In START (map n_id g) ->
+  creach true Dag g F (s, r) -> r_res r = None -> exists y, cstep true Dag g (s, r) y.
+Proof. intros g F s r Hnd Hs. exact (cstep_enabled_b Dag g F Hnd (batch_dag_nodup g Hnd Hs F) s r). Qed.
+Print Assumptions run_batch_never_stuck_dag.
+
+(* any-predecessor (pregel) channels: the hypothesis is needed - two paths of different length to a node
+   run it twice, in an acyclic graph too *)
+Example pregel_runs_a_node_twice :
+  map fst (snd (batch (fun l => l) Pregel [mkn 3 [0%N] 0; mkn 4 [0%N] 0; mkn 5 [4%N] 0; mkn 6 [3%N; 5%N] 0; mkn 1 [7%N] 0] 10))
+  = [3; 4; 5; 6; 6]%N.
+Proof. vm_compute. reflexivity. Qed.
 
 Example run_batch_no_hang_nonvacuous :
   NoDup (map n_id g_demo) /\ NoDup (map fst (snd (batch (fun l => l) Dag g_demo 20))) /\
@@ -482,11 +535,92 @@ Proof.
   split; [try rewrite <- Hs; try subst s; reflexivity|]. split; [congruence|]. vm_compute. reflexivity.
 Qed.
 
+(* ==== a state pre-handler that fails (behaviour 4 of a node; since fix 559768a the error of that node):
+        taskManager.submit runs the pre-processors of all the new tasks before it starts any of them and
+        returns at the first failure.  In the models: a step (batch) / a set of newly ready tasks (eager)
+        that contains such a node ends the run with a failure, nothing of it is started or logged, what
+        is in flight (eager) stays in flight.  All the theorems above are about the models with this
+        clause (order independence, exactly-once, no hang, return conditions); in addition: ==== *)
+
+(* such a node is never executed: batch, every completion order of every step *)
+Theorem prefail_never_executed_batch : forall g ord m fuel,
+  NoDup (map n_id g) ->
+  forall y i, In (y, i) (snd (batch ord m g fuel)) -> forall n, In n g -> n_id n = y -> n_fail n <> 4%N.
+Proof. intros g ord m fuel Hnd. exact (batch_clean g Hnd ord m fuel). Qed.
+Print Assumptions prefail_never_executed_batch.
+
+(* eager, every schedule *)
+Theorem prefail_never_executed_eager : forall g pick fuel,
+  NoDup (map n_id g) ->
+  forall y i, In (y, i) (snd (fst (eager pick g fuel))) -> forall n, In n g -> n_id n = y -> n_fail n <> 4%N.
+Proof. intros g pick fuel Hnd. exact (eager_clean g Hnd pick fuel). Qed.
+Print Assumptions prefail_never_executed_eager.
+
+(* the composed system, batch and eager: at every moment of every path (every interleaving of executors,
+   collector and run loop) no execution of such a node has been created *)
+Theorem run_prefail_never_executed : forall needAll m g F s r,
+  NoDup (map n_id g) -> creach needAll m g F (s, r) ->
+  forall y i, In (y, i) (r_log r) -> forall n, In n g -> n_id n = y -> n_fail n <> 4%N.
+Proof. intros needAll m g F s r Hnd C. exact (creach_clean g Hnd needAll m F (s, r) C). Qed.
+Print Assumptions run_prefail_never_executed.
+
+(* a batch step with such a node: the run fails and nothing of the step is started *)
+Theorem batch_prefail_step_not_started : forall ord m g f s tasks log,
+  existsb prefail tasks = true -> run_batch ord m g (S f) s tasks log = (OFail, log).
+Proof. exact run_batch_prefail. Qed.
+Print Assumptions batch_prefail_step_not_started.
+
+(* non-vacuity.  3 -> {5, 6}, 4 -> 6, the pre-handler of 5 fails: the second step {5, 6} is never
+   started, in either channel mode, whatever the completion order of the first step *)
+Definition g_pre : graph :=
+  [mkn 3 [0%N] 0; mkn 4 [0%N] 0; mkn 5 [3%N] 4; mkn 6 [3%N; 4%N] 0; mkn 1 [5%N; 6%N] 0].
+Example batch_prefail_nonvacuous :
+  batch (@rev _) Dag g_pre 20 = (OFail, [(3, [2;0;1]); (4, [2;0;1])]%N) /\
+  batch (fun l => l) Pregel g_pre 20 = (OFail, [(3, [2;0;1]); (4, [2;0;1])]%N).
+Proof. vm_compute. split; reflexivity. Qed.
+
+(* eager: the failure of the pre-handler of 5 is returned while 4 is still in flight *)
+Example eager_prefail_nonvacuous :
+  eager pick_first g_pre 10 = (OFail, [(3, [2;0;1]); (4, [2;0;1])]%N, [4%N]).
+Proof. vm_compute. reflexivity. Qed.
+
+(* the composed system: a batch path (the step {3, 4} collected in the order 4, 3) that returns the
+   failure of the pre-handler; nothing of the second step was handed to the task manager *)
+Example run_prefail_nonvacuous :
+  exists s r, creach true Dag g_pre 5 (s, r) /\ r_res r = Some OFail /\
+              map fst (r_log r) = [3; 4]%N /\ map fst (epcs s) = [4; 3]%N.
+Proof.
+  destruct (conf_run true Dag g_pre 5
+     [EvSpawn 4 BOk; EvSync 3 BOk; EvLockE 4; EvPush 4 false; EvSend 4; EvUnlockE 4;
+      EvLockE 3; EvPush 3 false; EvFull; EvUnlockE 3; EvSyncRet 3;
+      EvAwait; EvRecv 4 false; EvLockC; EvSend 3; EvUnlockC;
+      EvAwait; EvRecv 3 false; EvLockC; EvUnlockC; EvEmpty]%N) as [[s [[o lg] lf]]|] eqn:E; [|vm_compute in E; discriminate].
+  destruct (conf_run_sound _ _ _ _ _ _ _ _ _ E) as (r & C & E1 & E2 & E3).
+  exists s, r. split; [exact C|]. vm_compute in E. inversion E as [[Hs Ho Hl Hf]].
+  split; [congruence|]. split; [rewrite E2, <- Hl; reflexivity|]. try rewrite <- Hs; try subst s; reflexivity.
+Qed.
+
+(* a node whose pre-handler fails and that does not feed END: the F-C03c shape - the run returns END's
+   value if END becomes ready first (4 collected first) and the failure if node 5 becomes ready first *)
+Definition g_pre_side : graph := [mkn 3 [0%N] 0; mkn 4 [0%N] 0; mkn 5 [3%N] 4; mkn 1 [4%N] 0].
+Example eager_prefail_schedule_dependent :
+  fst (fst (eager pick_first g_pre_side 10)) = OFail /\
+  fst (fst (eager pick_last g_pre_side 10)) = ODone [4;0;2;0;1;1]%N /\
+  ~ prefail_feed_end g_pre_side /\ prefail_feed_end g_pre.
+Proof.
+  split; [vm_compute; reflexivity|]. split; [vm_compute; reflexivity|]. split.
+  - intros H. specialize (H (mkn 5 [3%N] 4)). vm_compute in H.
+    assert (K : 0%N = 5%N \/ 4%N = 5%N \/ 1%N = 5%N \/ False) by (apply H; [tauto|reflexivity]).
+    intuition discriminate.
+  - intros n Hn Hf. vm_compute in Hn. vm_compute.
+    intuition (subst; simpl in Hf; try discriminate; auto).
+Qed.
+
 (* ==== eager mode with branches (Model/EagerSkip.v, what the correspondence evaluates for Workflows
         with branches): on a graph without branches the branch-aware run loop is the plain one, for
         every schedule, so everything above holds for it there ==== *)
 Theorem eager_branches_conservative : forall g fixed pick fuel,
-  seager fixed pick (mksg g []) fuel = eager pick g fuel.
+  seager fixed pick (mksg g [] [] []) fuel = eager pick g fuel.
 Proof. exact seager_no_branches. Qed.
 Print Assumptions eager_branches_conservative.
 
@@ -503,3 +637,18 @@ Example eager_branch_fixed_on_witness :
   fst (fst (seager true pick_first g_fc03d 20)) = fst (fst (seager true pick_newest g_fc03d 20)) /\
   exists v, fst (fst (seager true pick_first g_fc03d 20)) = ODone v.
 Proof. exact seager_fixed_on_witness. Qed.
+
+(* the same rule for a control-only edge (WorkflowNode.AddDependency; round 4): 5 depends on 3 by a
+   control-only edge and is an unselected end of a branch of 3 and of a branch of 4.  The successors
+   exempted from a node's skip report are its successors by a CONTROL edge (chanCall.controls), not its
+   data successors (chanCall.writeTo): 5 runs whichever of 3 and 4 is collected first, and its output
+   (computed from no input: {5: {}}) is part of the result
+   (corpus/C03/eager_ctl_edge_and_unselected_branch.json; seeded change
+   C03-branch-skip-exempts-writeto-not-controls) *)
+Definition g_ctl_edge : sgraph :=
+  mksg [mkn 3 [0%N] 0; mkn 4 [0%N] 0; mkn 5 [] 0; mkn 6 [] 0; mkn 7 [] 0; mkn 1 [5; 6; 7]%N 0]
+       [mkbr 3 [5; 6] [6]; mkbr 4 [5; 7] [7]]%N [(5, 3)]%N [].
+Example eager_ctl_edge_wins :
+  fst (fst (seager true pick_first g_ctl_edge 20)) = ODone [5;0;1; 6;0;1; 7;0;1]%N /\
+  fst (fst (seager true pick_newest g_ctl_edge 20)) = ODone [5;0;1; 6;0;1; 7;0;1]%N.
+Proof. vm_compute. split; reflexivity. Qed.
